@@ -3,7 +3,7 @@ package rules
 import (
 	"strings"
 
-	"golang.org/x/tools/go/ssa"
+	ssa "xvc/xssa"
 
 	"xvc/load"
 	"xvc/q"
